@@ -24,7 +24,7 @@ import numpy as np
 PROP = 'C20'
 ALIAS_TAGS = ['content', 'seg_content', 'seg_sop', 'ann_content', 'ann_sop', 'ko_content', 'ko_sop', 'sr_coding', 'sr_content',
               'sr_sop', 'sr_value_types', 'sr_templates', 'image']
-TARGETS = ['T20vr', 'T20uid'] + ['T20alias_' + t for t in ALIAS_TAGS]
+TARGETS = ['T20vr', 'T20uid', 'T20sites'] + ['T20alias_' + t for t in ALIAS_TAGS]
 LEAN_MODULES = ['HdVerif.Props.C20']
 MODEL_MODULES = ['HdVerif.Model.VR', 'HdVerif.Model.Aliasing']
 NAMESPACE = 'HdVerif.C20'
@@ -706,10 +706,13 @@ def _converter_extra(cls, meth, inst):
     return extra
 
 
-def _check_converter(ctx, cls, meth, has_copy, inst, origin, obs=None):
+def _check_converter(ctx, cls, meth, has_copy, inst, origin, obs=None, defining=None):
     """one instance through one converter with copy in {True, False} (or without the parameter)"""
     from pydicom.dataset import Dataset
-    name = f'{cls.__module__.replace("highdicom.", "")}.{cls.__qualname__}.{meth}'
+    defining = defining or cls
+    name = f'{defining.__module__.replace("highdicom.", "")}.{defining.__qualname__}.{meth}'
+    if defining is not cls:
+        name += f'[{cls.__qualname__}]'
     extra = _converter_extra(cls, meth, inst)
     if extra is None:
         ctx.hist('converter_outcome', 'skipped:arguments')
@@ -724,7 +727,7 @@ def _check_converter(ctx, cls, meth, has_copy, inst, origin, obs=None):
         except Exception as e:  # noqa: BLE001
             ctx.note(f'could not prepare the argument of {name}: {e}')
             return
-        if meth == 'from_sequence' and cls.__module__ == 'highdicom.sr.templates':
+        if meth == 'from_sequence' and defining.__module__ == 'highdicom.sr.templates':
             # the template converters take content items that were already parsed (what ContentSequence.from_sequence yields)
             from highdicom.sr import ContentSequence
             try:
@@ -733,7 +736,7 @@ def _check_converter(ctx, cls, meth, has_copy, inst, origin, obs=None):
             except Exception as e:  # noqa: BLE001
                 ctx.note(f'could not pre-parse the argument of {name}: {type(e).__name__}: {e}'[:200])
                 return
-        elif meth == 'from_sequence' and cls.__module__.startswith('highdicom.sr') and \
+        elif meth == 'from_sequence' and defining.__module__.startswith('highdicom.sr') and \
                 ctx.rng('convseq', ctx.evaluations).random() < 0.5:
             plain = list(plain)
         case = {'converter': name, 'copy': copy, 'typed_argument': typed, 'origin': origin}
@@ -751,7 +754,7 @@ def _check_converter(ctx, cls, meth, has_copy, inst, origin, obs=None):
         ctx.case(sample=case if ctx.evaluations % 53 == 0 else None, nontrivial_key=('conv', name, copy, typed),
                  converter=name, converter_outcome='ok', copy=copy, typed_argument=typed)
         if obs is not None:
-            obs.append((f'{cls.__qualname__}.{meth}', copy, res is plain, snap(plain) != before, case))
+            obs.append((f'{defining.__qualname__}.{meth}', copy, res is plain, snap(plain) != before, case))
         if copy is False:
             # in-place conversion was requested: the same object comes back
             # (a sequence converter may have to build a new container; then its items must be the caller's items)
@@ -776,6 +779,32 @@ def _check_converter(ctx, cls, meth, has_copy, inst, origin, obs=None):
                 ctx.fail(case, f'result of a copying conversion shares a mutable {ids_before[k]} with the original', site=name)
 
 
+def _check_extractors(ctx, ds, origin, obs):
+    """`extract_from_dataset` converters (no in-place mode): the data set they read from stays untouched and the result
+    shares nothing mutable with it"""
+    import highdicom as hd
+    calls = [('PaletteColorLUTTransformation.extract_from_dataset', lambda d: hd.PaletteColorLUTTransformation.extract_from_dataset(d))]
+    for color in ('red', 'green', 'blue'):
+        calls.append(('PaletteColorLUT.extract_from_dataset', lambda d, c=color: hd.PaletteColorLUT.extract_from_dataset(d, c)))
+    for name, f in calls:
+        before = snap(ds)
+        ids_before = mutable_ids(ds)
+        case = {'converter': name, 'copy': None, 'origin': origin}
+        try:
+            res = f(ds)
+        except Exception as e:  # noqa: BLE001
+            ctx.case(converter=name, converter_outcome='refused:' + type(e).__name__)
+            ctx.hist('converter_refusals', f'{name}: {type(e).__name__}: {str(e)[:80]}')
+            continue
+        ctx.case(nontrivial_key=('conv', name), converter=name, converter_outcome='ok')
+        d = snap_diff(before, snap(ds))
+        if d:
+            ctx.fail(case, f'data set altered by an extracting conversion: {d}', site=name)
+        if res is ds or set(ids_before) & set(mutable_ids(res)):
+            ctx.fail(case, 'extract_from_dataset did not return a new object (it promises to)', site=name)
+        obs.append((name, None, res is ds, snap(ds) != before, case))
+
+
 def _objects(ctx):
     import logging
     import warnings
@@ -787,36 +816,46 @@ def _objects(ctx):
         _run_subject(ctx, idx, built)
     # converters on everything the constructors produced
     conv = _converter_classes()
-    by_class = {}
-    for (c, meth), has_copy in conv.items():
-        by_class.setdefault(c, []).append((meth, has_copy))
     seen_per = {}
     obs = []
     import pydicom
+    import highdicom as hd
+
+    def defining(k, meth):
+        for base in k.__mro__:
+            if meth in base.__dict__ and base.__module__.startswith('highdicom'):
+                return base
+        return None
+
+    def through(inst, via, origin, arg=None):
+        """every converter the class `via` offers (own or inherited), applied to `inst`"""
+        for meth in ('from_dataset', 'from_sequence'):
+            d = defining(via, meth)
+            if d is None or (d, meth) not in conv:
+                continue
+            if seen_per.get((d, meth, via), 0) >= ctx.n(3, 12) or \
+                    sum(v for (dd, mm, _), v in seen_per.items() if (dd, mm) == (d, meth)) >= ctx.n(8, 60):
+                continue
+            seen_per[(d, meth, via)] = seen_per.get((d, meth, via), 0) + 1
+            _check_converter(ctx, via, meth, conv[(d, meth)], inst if arg is None else arg, origin, obs, defining=d)
+
     for case, obj, blob in built:
-        # SOP-level converters on the file that was written (plain pydicom objects all the way down)
-        for c, ms in by_class.items():
-            if blob is not None and (type(obj) is c or (c.__name__ == 'Image' and 'PixelData' in obj
-                                                        and type(obj).__name__ in ('Segmentation', 'ParametricMap', 'SCImage'))):
-                for meth, has_copy in ms:
-                    if seen_per.get((c, meth), 0) >= ctx.n(6, 40):
-                        continue
-                    seen_per[(c, meth)] = seen_per.get((c, meth), 0) + 1
-                    plain = pydicom.dcmread(io.BytesIO(blob))
-                    _check_converter(ctx, c, meth, has_copy, plain, case['subject'], obs)
+        if blob is not None:
+            # SOP-level converters on the file that was written (plain pydicom objects all the way down)
+            plain = pydicom.dcmread(io.BytesIO(blob))
+            through(obj, type(obj), case['subject'], arg=plain)
+            if 'PixelData' in obj or 'FloatPixelData' in obj or 'DoubleFloatPixelData' in obj:
+                through(obj, hd.Image, case['subject'], arg=plain)
+            if 'RedPaletteColorLookupTableDescriptor' in obj:
+                _check_extractors(ctx, plain, case['subject'], obs)
         acc = []
         _harvest(obj, acc)
         for inst in acc:
             if inst is obj:
                 continue
-            for c, ms in by_class.items():
-                if type(inst) is not c:
-                    continue
-                for meth, has_copy in ms:
-                    if seen_per.get((c, meth), 0) >= ctx.n(6, 40):
-                        continue
-                    seen_per[(c, meth)] = seen_per.get((c, meth), 0) + 1
-                    _check_converter(ctx, c, meth, has_copy, inst, case['subject'], obs)
+            through(inst, type(inst), case['subject'])
+    done = {(d, m) for (d, m, _) in seen_per}
+    seen_per = {k: 1 for k in done}
     missing = sorted(f'{c.__module__.replace("highdicom.", "")}.{c.__qualname__}.{m}' for (c, m) in conv if (c, m) not in seen_per)
     ctx.note(f'converters exercised: {len(seen_per)} of {len(conv)}; not reached by any generated object: {missing}')
     ctx.hist('converters', 'exercised', len(seen_per))
@@ -911,7 +950,9 @@ def run(ctx):
 
 
 def replay(ctx, case):
+    """Re-run one stored case on the implementation; returns failure detail or None."""
     sub = type(ctx)(ctx.prop, ctx.tier, ctx.seed, 1, ctx.driver)
+    sub.model_available = False
     if 'guard' in case:
         from highdicom import valuerep
         vrs = {'_check_code_string': 'CS', '_check_short_string': 'SH', '_check_long_string': 'LO',
@@ -920,7 +961,26 @@ def replay(ctx, case):
         try:
             f(case['s'])
             if case['guard'] in vrs and not _vr_valid(vrs[case['guard']], case['s']):
-                return [{'case': case, 'detail': 'accepted an invalid value'}]
+                return [{'case': case, 'detail': f"accepted a value that is not a valid {vrs[case['guard']]}"}]
         except ValueError:
             return None
-    return sub.failures[:3] or None
+        return None
+    if 'subject' in case and 'idx' in case:
+        _run_subject(sub, case['idx'])
+        return sub.failures[:3] or None
+    if 'converter' in case or 'helper' in case:
+        # converter cases are found on objects harvested from the generated subjects: re-run that part and keep the
+        # failures of the same converter / copy flag / argument kind
+        _objects(sub)
+        keep = [f for f in sub.failures if isinstance(f['case'], dict)
+                and all(f['case'].get(k) == case.get(k) for k in ('converter', 'copy', 'typed_argument', 'helper'))]
+        return keep[:3] or None
+    if 'uuid_int' in case:
+        import uuid
+        import highdicom as hd
+        n = int(case['uuid_int'])
+        s = str(hd.UID.from_uuid(str(uuid.UUID(int=n))))
+        if s != '2.25.' + str(n) or len(s) > 64 or not UID_RE.match(s):
+            return [{'case': case, 'detail': f'from_uuid gave {s!r}'}]
+        return None
+    return None
